@@ -59,14 +59,16 @@ HOOKS = {
     "guard": "QUILL_VERIF",
     "enable": "every harness TU is compiled with -DQUILL_VERIF -I/repo/include (header-only library; see ./check)",
     "baseline_off_cmd": "cmake -G Ninja -S /repo -B /repo/_build -DQUILL_BUILD_TESTS=ON && cmake --build /repo/_build -j16 && ctest --test-dir /repo/_build -j8 --timeout 900",
-    "source_commits": [],
+    "source_commits": ["c0ad062"],
     "add_only": True,
 }
 
 ENGINES = {
+    "sim": {"path": "engine/sim.h", "serves": ["C03", "C05", "C06", "C08", "C09", "C10", "C16", "C17", "C18", "C20"],
+            "kind": "harness-owned backend schedule: scheduler thread == ManualBackendWorker, baton-driven worker threads, interposed nanosleep/clock_gettime (blocked state, virtual time), yield-point bursts; harness/sim_main.cpp + sim_ops.h + sim_oracles.h"},
     "wmm": {"path": "engine/wmm.h", "serves": ["C01", "C02", "C09"],
             "kind": "std::atomic retarget shim with per-location store history, vector clocks, coherence floors, choice-driven stale loads, coroutine scheduler, payload happens-before race detector"},
-    "rcdrv": {"path": "engine/rc_driver.cpp", "serves": ["C01", "C02", "C04", "C07", "C11", "C12", "C13", "C14", "C15", "C19"],
+    "rcdrv": {"path": "engine/rc_driver.cpp", "serves": ["C%02d" % i for i in range(1, 21)],
               "kind": "rapidcheck generator+shrinker over a vector<uint32_t> choice stream; in-process or fork-per-case execution; replay files"},
     "fmtcat": {"path": "harness/fmtcat.cpp", "serves": ["C04"], "kind": "typed statement catalog (167 shapes in 8 TUs) with call-site fmt oracle and codec round trip"},
     "pattern": {"path": "harness/pattern.cpp", "serves": ["C12"], "kind": "direct + end-to-end PatternFormatter harness with independent reference substitution"},
@@ -75,7 +77,7 @@ ENGINES = {
     "alloc": {"path": "harness/alloc_catalog.cpp", "serves": ["C11"], "kind": "allocation-interposed statement catalog (-O2, no sanitizers)"},
     "crashkid": {"path": "harness/crashkid.cpp", "serves": ["C07"], "kind": "fork/exec fault injection: generated child programs, all boundaries x termination kinds"},
     "tsfmt": {"path": "harness/tsfmt.cpp", "serves": ["C13"], "kind": "TimestampFormatter vs libc strftime"},
-    "check": {"path": "check", "serves": ["C01", "C02", "C04", "C07", "C11", "C12", "C13", "C14", "C15", "C19"],
+    "check": {"path": "check", "serves": ["C%02d" % i for i in range(1, 21)],
               "kind": "python3 driver: builds harnesses from /repo's working tree, seeds, tiers, replays, known findings, evidence"},
 }
 
@@ -90,7 +92,164 @@ WMM_NOTE = ("Trusts the shim's reading of the C++11 rules (coherence + happens-b
             "non-atomic members are not tracked (a side touching the other side's private fields is only visible to the TSan job); "
             "exploration of the axiomatic space, not enumeration.")
 
+SIM_NOTE = ("One sequentially consistent interleaving per case, chosen by data: the harness thread is the quill backend "
+            "(ManualBackendWorker::poll_one) and runs generated bursts of frontend operations at the QUILL_VERIF yield points; "
+            "frontend operations run on real threads one at a time; sleeps and clocks are interposed (virtual time). No weak-memory "
+            "effects on registry/flag atomics; System clock only (TSC cannot be virtualised); fork per case, ASan+UBSan, quill asserts on.")
+
+
+def _simjobs(prop, bins, quick_cases=700, quick_procs=2, thorough_cases=10000, thorough_procs=4, extra=None):
+    jobs = []
+    for b in bins:
+        params = {"prop": prop}
+        if extra:
+            params.update(extra)
+        jobs.append({"bin": b, "params": params,
+                     "quick": {"cases": quick_cases, "procs": quick_procs, "maxlen": 900},
+                     "thorough": {"cases": thorough_cases, "procs": thorough_procs, "maxlen": 1800}})
+    return jobs
+
+
+SIM_CASE = ("case = generated BackendOptions (transit buffer capacity, soft/hard limit, grace period, sink flush interval), 1-3 "
+            "recording sinks shared between 1-3 loggers, and a program of up to 120 ops (StartThread, Log with sizes relative to the "
+            "queue capacity, ExitThread, Tick, Flush, Retry/Resume, Poll) where every Poll runs generated bursts of further ops at "
+            "the yield points Y1..Y5 inside the backend; followed by a drain; ")
+
 PROPERTIES = {
+    "C03": {
+        "technique": "stateful property-based testing with a harness-owned backend schedule (yield-point bursts, virtual time) against a per-sink exactly-once/in-order reference model",
+        "level_text": ("Exploration: thousands of generated thread programs x backend poll schedules per run on five blocking queue "
+                       "flavours (bounded 256 B/1 KiB/4 KiB, unbounded 64->512 and 128->4096); after the drain every sink must hold "
+                       "exactly the accepted statements of its loggers, per thread in order, intact, with the right thread id, "
+                       "logger, level and timestamp. Held on everything generated."),
+        "level_note": SIM_NOTE,
+        "rule": SIM_CASE + ("non-trivial = >= 2 threads logged AND (a thread exited with unwritten statements OR a worker blocked on a "
+                            "full queue OR a burst ran between queue reads / decoded records / processed events); distinct = FNV hash "
+                            "of the rendered case (config + op list + counters)"),
+        "assumptions": ["statements <= queue capacity on blocking queues (documented)"],
+        "jobs": _simjobs("C03", ["sim_bb256", "sim_bb1k", "sim_bb4k", "sim_ub", "sim_ubs"]),
+    },
+    "C05": {
+        "technique": "stateful property-based testing with virtual time: stalls inside the timestamp read, ticks around the grace period, yield-point bursts; oracle = non-decreasing sink timestamps under the stated precondition",
+        "level_text": ("Exploration: thousands of generated programs per run with threads stalled between reading the clock and "
+                       "enqueuing, time steps of grace/2, grace-1, grace, grace+1, 10x grace, first-time loggers inside the backend's "
+                       "pass, hard-limit delayed reads; each sink timestamp must equal the value the clock handed to that call, and "
+                       "when every statement was enqueued within the grace period the global write order is non-decreasing."),
+        "level_note": SIM_NOTE,
+        "rule": SIM_CASE + ("Log ops may carry a stall inside the clock read; non-trivial = >= 2 threads logged AND (a burst between "
+                            "queue reads OR a blocked worker OR an exited thread with unwritten statements); cases where some "
+                            "statement missed the deadline are labelled precondition_violated and only checked for delivery"),
+        "assumptions": ["grace == 0 and user clocks carry no ordering claim (documented)", "virtual clock strictly monotonic (+1 ns per read)"],
+        "jobs": _simjobs("C05", ["sim_bb1k", "sim_ub", "sim_bb256"], quick_procs=3),
+    },
+    "C06": {
+        "technique": "stateful property-based testing with a harness-owned backend schedule: oracle evaluated at the instant flush_log() returns; stall-state predicate for liveness",
+        "level_text": ("Exploration: thousands of generated programs per run with Flush ops from any thread (also first-time loggers, "
+                       "also inside backend passes), on blocking and dropping flavours; at the instant flush_log() returns every "
+                       "earlier statement of the caller (and, with ordering enabled, of any thread whose call had completed) must be "
+                       "on all its sinks with a flush_sink after it; a flush still blocked with an idle backend is a violation."),
+        "level_note": SIM_NOTE + " Recording sinks (flush observed as flush_sink call); the real FileSink read-back is covered by C07's children.",
+        "rule": SIM_CASE + ("non-trivial = >= 2 threads logged AND a flush was issued while statements of OTHER threads whose calls had "
+                            "completed were required to be written by it"),
+        "assumptions": ["flush_log is never called from the backend thread (documented)"],
+        "jobs": _simjobs("C06", ["sim_bb1k", "sim_ub", "sim_bd1k", "sim_ud"]),
+    },
+    "C08": {
+        "technique": "stateful property-based testing on dropping queue flavours: return value <=> delivery, reported drops == false returns, control requests never dropped",
+        "level_text": ("Exploration: thousands of generated programs per run on BoundedDropping 256 B / 1 KiB and UnboundedDropping "
+                       "128->1024 with sizes incl. never-fitting ones, flush requests while the queue is full, thread exits with "
+                       "unreported drops; true <=> written exactly once in order, false <=> absent, sum of 'Dropped N' notifications "
+                       "== number of false returns (bounded), every flush returns."),
+        "level_note": SIM_NOTE,
+        "rule": SIM_CASE + "non-trivial = >= 1 statement dropped AND >= 1 statement delivered after a drop on the same thread",
+        "assumptions": ["the drop report is defined for bounded dropping queues only (code and property agree)"],
+        "jobs": _simjobs("C08", ["sim_bd256", "sim_bd1k", "sim_ud"], quick_procs=3),
+    },
+    "C09": {
+        "technique": "stateful property-based testing: stall-state reachability (blocked worker + empty queues + idle backend) in a harness-owned schedule, plus the queue-level quiescence probe under the memory-model simulation",
+        "level_text": ("Exploration: thousands of generated histories per run followed by requests in the band just below the capacity "
+                       "(size = capacity - 0..6 %), on bounded/unbounded blocking and dropping flavours; no state may be reached where "
+                       "a worker is blocked (or a fitting statement dropped) while its queue is empty and the backend idle; the wmm "
+                       "engine adds the queue-level clause after arbitrary interleavings."),
+        "level_note": SIM_NOTE + " Liveness is decided as reachability of a stall state, not as 'eventually' over real time.",
+        "rule": SIM_CASE + ("plus DrainIdle+Log ops; non-trivial = a worker was refused at least once (blocked) or a statement was "
+                            "dropped; wmm job: as C01/C02 plus a quiescent request of size <= capacity"),
+        "assumptions": ["non-power-of-two unbounded maximum is known finding F12 (excluded in the wmm job)"],
+        "jobs": _simjobs("C09", ["sim_bb1k", "sim_bb4k", "sim_ub", "sim_ubs", "sim_bd1k", "sim_bd256"], quick_cases=500) + [
+            {"bin": "wmm", "params": {"prop": "C09"},
+             "quick": {"cases": 1000, "procs": 3, "maxlen": 700},
+             "thorough": {"cases": 15000, "procs": 8, "maxlen": 1400}}],
+    },
+    "C10": {
+        "technique": "stateful property-based testing with fault injection: unformattable statements, formatters throwing any type, throwing sinks; exact per-(sink,thread) sequence oracle with optional elements",
+        "level_text": ("Exploration: thousands of generated programs per run where a generated subset of statements cannot be "
+                       "formatted (too few arguments, wrong spec, deferred-format type whose formatter throws std::runtime_error / a "
+                       "non-std class / int / char const*, LOG_BACKTRACE without init) and generated write_log/flush_sink calls throw; "
+                       "only the faulty statement (and, for a throwing write, that statement on that sink and the sinks after it) may "
+                       "differ; notifications are bounded; the backend must neither stall nor livelock; every flush returns."),
+        "level_note": SIM_NOTE,
+        "rule": SIM_CASE + ("with fault kinds on Log ops and a throw plan per sink; non-trivial = >= 1 injected fault with >= 1 later "
+                            "accepted statement on the same thread and >= 1 flush in the program"),
+        "assumptions": ["sinks throw std::exception-derived errors only (property text)"],
+        "jobs": _simjobs("C10", ["sim_bb1k", "sim_ub", "sim_bb4k"], quick_procs=3),
+    },
+    "C16": {
+        "technique": "stateful property-based testing through the real LOG_* macros with argument-evaluation counters; iff-model per sink (level threshold, filters, override pattern)",
+        "level_text": ("Exploration: thousands of generated programs per run: all nine static levels through the real macros and "
+                       "LOG_DYNAMIC with every runtime level, logger level changed between statements by any thread, 1-3 sinks each "
+                       "with its own level filter and 0-2 filters (pure functions of level and message), one sink with an override "
+                       "pattern, transit buffers of 1-2 slots so static/dynamic/flush events reuse slots; evaluated <=> level >= "
+                       "logger level; sink k receives it <=> its own threshold and filters accept; reported level and formatted line "
+                       "exact."),
+        "level_note": SIM_NOTE + " Sink-side settings are fixed at creation (their effect on in-flight statements is unspecified).",
+        "rule": SIM_CASE + ("Log ops go through macro call sites with bump(counter) arguments; SetLevel ops; non-trivial = a dynamic "
+                            "and a static statement were both delivered AND two sinks disagreed on at least one statement"),
+        "assumptions": ["blocking flavours (evaluated == enqueued)"],
+        "jobs": _simjobs("C16", ["sim_bb1k", "sim_ub"], quick_procs=4),
+    },
+    "C17": {
+        "technique": "stateful property-based testing of the logger/sink registry against a reference registry (creation, idempotent lookup, removal, blocking removal, re-creation, user sink references) under ASan",
+        "level_text": ("Exploration: thousands of generated programs per run mixing create_or_get_logger/get_logger/remove_logger/"
+                       "remove_logger_blocking/re-creation over three names, sinks shared in every pattern, user sink references "
+                       "dropped at any time, logging threads and exits, with removals and late enqueues placed between the backend's "
+                       "'all empty' check and its clean-ups; statements logged before a removal are all written, sinks are destroyed "
+                       "exactly when unowned, blocking removal completes before it returns, lookups are idempotent, ASan sees no "
+                       "use-after-free."),
+        "level_note": SIM_NOTE + " The generator never logs through a logger after its removal was requested and re-creates a name only after the removal completed (documented preconditions).",
+        "rule": ("case = generated BackendOptions + program of up to 120 ops (Create, Remove, RemoveBlocking, DropSinkRef, Log, Flush, "
+                 "StartThread, ExitThread, Poll with bursts at Y1..Y5); non-trivial = a removal was requested while statements of that "
+                 "logger were still unwritten AND a name was re-created"),
+        "assumptions": ["CsvWriter not exercised"],
+        "jobs": _simjobs("C17", ["sim_bb1k", "sim_ub", "sim_bd1k"], quick_procs=3),
+    },
+    "C18": {
+        "technique": "stateful property-based testing of backtrace storage against a reference ring per logger (exact expected sink sequence)",
+        "level_text": ("Exploration: thousands of generated programs per run: capacities 1-9, flush levels incl. None, histories of "
+                       "LOG_BACKTRACE-level statements, ordinary statements at every level, explicit flushes and re-initialisations, "
+                       "1-3 threads each with its own logger, many store/flush cycles with wrapped and partial rings; the sinks of each "
+                       "logger must receive exactly: ordinary statements when logged, and after each trigger the most recent "
+                       "min(capacity, stored) backtrace statements oldest first, once, with original timestamp/thread id."),
+        "level_note": SIM_NOTE + " Each logger is used by one thread (so its event order is program order); capacity 0 not generated; a different capacity only right after a flush.",
+        "rule": ("case = generated BackendOptions (transit buffers of 1-2 slots) + program of up to 120 ops (InitBt, backtrace Log, "
+                 "ordinary Log, FlushBt, Tick, Poll with bursts); non-trivial = some logger saw >= 2 flush cycles of which >= 1 with a "
+                 "wrapped ring and >= 1 with a partially filled ring"),
+        "assumptions": ["flush level changes only via init_backtrace at points the model tracks"],
+        "jobs": _simjobs("C18", ["sim_bb1k", "sim_ub", "sim_bd256"], quick_procs=3),
+    },
+    "C20": {
+        "technique": "stateful property-based testing of thread-context reclamation and queue shrinking: batches of short-lived threads aimed at counter-width boundaries, context count oracle",
+        "level_text": ("Exploration: hundreds to thousands of generated programs per run with StartThread/Log/ExitThread in any "
+                       "interleaving with polls, batches of k short-lived threads (k up to 257 quick, 513 thorough) executed with no "
+                       "idle poll in between, exits placed between the backend's idle check and its clean-ups, shrink requests on "
+                       "unbounded queues; all statements delivered, after the drain the number of retained contexts equals the live "
+                       "threads that logged, shrink takes effect exactly when capacity <= current/2."),
+        "level_note": SIM_NOTE + " 65 536-thread batches were dropped (cost); batch sizes 511-513 only in the thorough tier.",
+        "rule": ("case = generated BackendOptions + program of up to 120 ops (Log, StartThread, ExitThread, Batch(k x n), Shrink, Tick, "
+                 "Poll with bursts); non-trivial = a thread exited with unwritten statements OR >= 64 thread exits between two backend "
+                 "idle periods OR a shrink took effect"),
+        "assumptions": [],
+        "jobs": _simjobs("C20", ["sim_ub", "sim_ubs", "sim_bb1k", "sim_ud"], quick_cases=250, thorough_cases=3000, extra=None),
+    },
     "C01": {
         "technique": "property-based testing: randomised C++11 memory-model simulation of the real queue code vs a FIFO model + happens-before race detector",
         "level_text": ("Exploration: thousands of generated producer/consumer step interleavings per run over the REAL "
